@@ -28,7 +28,7 @@ def main():
                    VERIF_TMP=os.path.join(root, "work"))
         check = os.path.join(v, "check")
         for pr in props:
-            p = subprocess.run([check, pr], cwd=v, env=env, stdout=subprocess.PIPE, stderr=subprocess.STDOUT, text=True, timeout=3600)
+            p = subprocess.run([check, pr], cwd=v, env=env, stdout=subprocess.PIPE, stderr=subprocess.STDOUT, text=True, timeout=(9000 if os.environ.get("VERIF_TIER") == "thorough" else 3600))
             out = p.stdout
             guards = {}
             for rp in re.findall(r"^VIOLATION property=\w+ replay=(\S+)", out, re.M):
